@@ -1,5 +1,6 @@
 ------------------------------- MODULE MC_Iter -------------------------------
-(* Iterator sub-machine: every word over {next, next_back} up to length     *)
+(* Iterator sub-machine: every word over Letters (next, next_back, nth(J),  *)
+(* nth_back(J)) up to length                                                *)
 (* len + MaxWord, all seven iterator kinds, dropped or forgotten, on every  *)
 (* recency order of up to |Keys| entries.                                   *)
 EXTENDS LruMemModel
